@@ -198,7 +198,7 @@ def _newid(nb, rnd):
 def edit_ops():
     return ['insert', 'delete', 'source_line_add', 'source_line_change', 'source_line_del', 'outputs_clear',
             'outputs_append', 'outputs_change', 'metadata_flag', 'metadata_tags', 'execution_count', 'attachments',
-            'move', 'duplicate', 'nb_metadata', 'retype', 'output_metadata', 'insert_run', 'source_multi_change', 'minor_upgrade', 'falsy_swap', 'source_last_lines']
+            'move', 'duplicate', 'nb_metadata', 'retype', 'output_metadata', 'insert_run', 'source_multi_change', 'minor_upgrade', 'falsy_swap', 'source_last_lines', 'nested_named_keys']
 
 
 def apply_edit(nb, op, rnd, where=None):
@@ -278,6 +278,16 @@ def apply_edit(nb, op, rnd, where=None):
         c['metadata'][key] = nbformat.from_dict(rnd.choice(choices)) if True else None
         if c['cell_type'] == 'code' and rnd.random() < 0.5:
             c['execution_count'] = 0 if c['execution_count'] is None else None
+    elif op == 'nested_named_keys':
+        # keys that merely share the name of an ignorable key, deeper in the cell (Colab-style metadata.id, JSON payloads)
+        c = cells[i]
+        tgt = [o for o in c.get('outputs', []) if o['output_type'] in ('display_data', 'execute_result') and 'application/json' in o['data']]
+        if tgt and rnd.random() < 0.5:
+            js = tgt[0]['data']['application/json']
+            js['id'] = js.get('id', 0) + 1
+        else:
+            k = rnd.choice(['id', 'execution_count', 'attachments'])
+            c['metadata'][k] = 'm%d' % rnd.randrange(1000)
     elif op == 'source_last_lines':
         # edit the last line(s) of a multi-line string (source or stream text) without touching earlier ones
         c = cells[i]
@@ -457,7 +467,7 @@ def concurrent_insert_triple(b, rnd):
 FAMILIES = {
     'source': ['source_line_add', 'source_line_change', 'source_line_del', 'source_multi_change', 'source_last_lines'],
     'outputs': ['outputs_clear', 'outputs_append', 'outputs_change', 'execution_count', 'output_metadata'],
-    'metadata': ['metadata_flag', 'metadata_tags', 'falsy_swap'],
+    'metadata': ['metadata_flag', 'metadata_tags', 'falsy_swap', 'nested_named_keys'],
     'attachments': ['attachments'],
     'cell': ['delete', 'retype', 'duplicate', 'source_line_change', 'outputs_change', 'metadata_flag'],
 }
